@@ -778,6 +778,7 @@ theorem select_invE (next : Nat) (o r : Obj) (keys : List Str) (n : Nat) (ho : i
   · unfold selectGrid at h
     simp only [bind, Except.bind] at h
     split at h; · cases h
+    split at h; · cases h
     cases hch : children o with
     | error e => rw [hch] at h; cases h
     | ok ds =>
